@@ -68,6 +68,9 @@ def register(reg):
     k = reg.contract("_columns._predicate:Predicate.logical_and", properties=P)
     k.ens("denotes-the-conjunction", lambda c: c.forall([(TRow, "rho")], lambda rho: B(V.ev(c.result.z, rho.z) == V.all_ev(c.operands.z, rho.z)),
                                                         patterns=lambda rho: [V.ev(c.result.z, rho.z)]))
+    k.ens("free-columns-are-the-union", lambda c: B(V.fv(c.result.z) == V.fvs(c.operands.z)),
+          hints=lambda c: [B(V.fvp(c.operands.z, 0) == smt.EMPTY_TAGS),
+                           B(V.fvp(c.operands.z, 1) == z3.SetUnion(V.fvp(c.operands.z, 0), V.fv(SeqInfo.at(c.operands.z, 0))))])
     k = reg.contract("_columns._predicate:Predicate.logical_or", properties=P)
     k.ens("denotes-the-disjunction", lambda c: c.forall([(TRow, "rho")], lambda rho: B(V.ev(c.result.z, rho.z) == V.any_ev(c.operands.z, rho.z)),
                                                         patterns=lambda rho: [V.ev(c.result.z, rho.z)]))
@@ -79,10 +82,19 @@ def register(reg):
         lambda rho: B(z3.Implies(Flat.is_flat_list(c.result.z), V.all_ev(Flat.flat_val(c.result.z), rho.z) == V.ev(c.predicate.z, rho.z))),
         patterns=lambda rho: [V.ev(c.predicate.z, rho.z)]))
 
+    k.ens("conjuncts-need-the-same-columns", lambda c: B(z3.Implies(Flat.is_flat_list(c.result.z),
+                                                                      V.fvs(Flat.flat_val(c.result.z)) == V.fv(c.predicate.z))))
+
     def flat_inv(c, i, env, seq):
         rho = c.forall([(TRow, "rho")], lambda rho: rho)  # the memoised ghost row of this verification
         j = z3.Int("j")
         prefix = z3.ForAll([j], z3.Implies(z3.And(0 <= j, j < i.z), V.ev(SeqInfo.at(seq.z, j), rho.z)), patterns=[SeqInfo.at(seq.z, j)])
-        return B(V.all_ev(env.result.z, rho.z) == prefix)
+        return B(z3.And(V.all_ev(env.result.z, rho.z) == prefix,
+                        V.fvs(env.result.z) == V.fvp(seq.z, i.z)))
 
     k.inv(0, flat_inv)
+
+    # Selection.__post_init__: the stored predicate is equivalent to the supplied one and needs no new column
+    k = reg.contract("_operations._selection:Selection.__post_init__", properties=P, modifies=("predicate",))
+    k.ens("stored-predicate-equivalent", lambda c: B(V.pequiv(c.field("predicate").z, c.field("predicate", old=True).z)))
+    k.ens("stored-predicate-needs-no-new-column", lambda c: B(z3.IsSubset(V.fv(c.field("predicate").z), V.fv(c.field("predicate", old=True).z))))
